@@ -6,6 +6,8 @@ import KiraModel.Exec.SuiteUnits
 import KiraModel.Exec.SuiteParam
 import KiraModel.Exec.SuiteFinal
 import KiraModel.Exec.SuiteSrate
+import KiraModel.Exec.SuiteModulator
+import KiraModel.Exec.SuiteModSys
 
 open K.Exec
 
@@ -24,6 +26,9 @@ def suiteOf (name : String) : Option Suite :=
   | "param" => some { σ := ParamState, init := {}, step := paramStep }
   | "final" => some { σ := FinalState, init := {}, step := finalStep }
   | "srate" => some { σ := K.SR.State, init := K.SR.init 0, step := srateStep }
+  | "lfo" => some { σ := LfoSt, init := {}, step := lfoStep }
+  | "tweener" => some { σ := TweenerSt, init := {}, step := tweenerStep }
+  | "modsys" => some { σ := SysSt, init := {}, step := sysStep }
   | _ => none
 
 def tokens (line : String) : List String :=
